@@ -1,0 +1,79 @@
+//go:build verif
+
+// Verification hook H8 (sync protocol seam). Compiled only with `-tags verif`; add-only, no
+// existing file is touched and nothing here is reachable from a production build.
+//
+// The per-connection entry point of the sync protocol is the Run closure that
+// NewProtocolManager puts into p2p.Protocol (handler.go:168-184); it is built around the
+// unexported newPeer/handle. The deterministic simulator in /verif plays the remote side of a
+// connection over p2p.MsgPipe and must run exactly that closure body on a real
+// ProtocolManager; this file only makes it callable without a p2p.Server and lets the
+// simulator read (never write) a little peer bookkeeping.
+
+package you
+
+import (
+	"math/big"
+	"sync/atomic"
+
+	"github.com/youchainhq/go-youchain/common"
+	"github.com/youchainhq/go-youchain/logging"
+	"github.com/youchainhq/go-youchain/p2p"
+	"github.com/youchainhq/go-youchain/p2p/enode"
+)
+
+// Wire packet types of the protocol that are unexported (aliases, not copies).
+type (
+	SimStatusData          = statusData
+	SimGetBlockHeadersData = getBlockHeadersData
+)
+
+// SimPeer is one simulated inbound connection.
+type SimPeer struct {
+	pm *ProtocolManager
+	p  *peer
+}
+
+// SimNewPeer creates the peer object for a connection the way Protocol.Run does
+// (handler.go:169); p2p.NewPeer is the repo's own test constructor (p2p/peer.go:130).
+func (pm *ProtocolManager) SimNewPeer(id enode.ID, name string, version int, nodetype uint16, rw p2p.MsgReadWriter) *SimPeer {
+	return &SimPeer{pm: pm, p: pm.newPeer(version, p2p.NewPeer(id, name, nil, nodetype), rw)}
+}
+
+// Serve is the body of Protocol.Run (handler.go:170-184), verbatim: it returns when the
+// connection's handler returns.
+func (sp *SimPeer) Serve() error {
+	manager, peer := sp.pm, sp.p
+	select {
+	case <-manager.quitSync:
+		return p2p.DiscQuitting
+	default:
+		manager.wg.Add(1)
+		defer manager.wg.Done()
+		return manager.handle(peer, func() {
+			select {
+			case manager.newPeerCh <- peer:
+				logging.Info("newPeerCh<-", "pid", peer.id)
+			default:
+				logging.Info("newPeerCh is busy", "pid", peer.id)
+			}
+		})
+	}
+}
+
+// ID is the peer id the protocol manager, the fetcher and the downloader know the peer by.
+func (sp *SimPeer) ID() string { return sp.p.id }
+
+// Registered reports whether the peer is (still) in the manager's peer set. p2p.NewPeer's
+// Disconnect is a no-op, so the simulator uses this to see that the node dropped the peer and
+// closes the pipe as the p2p layer would.
+func (sp *SimPeer) Registered() bool { return sp.pm.peers.Peer(sp.p.id) == sp.p }
+
+// Head is the head the node currently attributes to the peer.
+func (sp *SimPeer) Head() (common.Hash, *big.Int) { return sp.p.Head() }
+
+// SimPeerCount is the size of the manager's peer set.
+func (pm *ProtocolManager) SimPeerCount() int { return pm.peers.Len() }
+
+// SimSyncing reports whether a downloader sync cycle is running (sync.go:198).
+func (pm *ProtocolManager) SimSyncing() bool { return atomic.LoadUint32(&pm.downloaderSyncing) == 1 }
